@@ -168,6 +168,9 @@ def __distribute_ors_switching(f: Formula, fresh: int) -> FormulaAndFresh:
                                       f.input_list,
                                       (cast(List[Formula], []), fresh))
         clauses.sort(key=__order_clauses)
+        if len(clauses) == 0:
+            # The empty disjunction is false
+            return (f, fresh)
         if len(clauses) > 1:
             if __should_not_combine(clauses):
                 return (f, fresh)
@@ -257,7 +260,8 @@ def __order_clauses(c: Formula) -> int:
     if isinstance(c, And) or isinstance(c, Or):
         return 0
     elif isinstance(c, Not):
-        return c.c
+        # A negated subformula (before De Morgan is applied to it) sorts like a subformula
+        return c.c if isinstance(c.c, int) else 0
     else:
         return c
 
